@@ -191,6 +191,21 @@ def check_rect(case):
             fails.append((sig('parts', [den], both, 'no-parts' if o['rect'] is None else 'other-rect'),
                           '%s: parts %r, denotation %r' % (where, o['rect'], rect)))
         nm = o.get('name', o.get('pname'))
+        if nm is not None and host is not None and sp['f'] in ('rel', 'relrel', 'relcols', 'relrows'):
+            # third observation point for relative spellings: the host is given as the cell's own address (what a
+            # workbook does), not as cr/cc in the context
+            cctx = {k: v for k, v in ctx.items() if k not in ('cr', 'cc')}
+            hostref = '%s%d' % (X.col(host[1]), host[0])
+            n_eval += 1
+            try:
+                got = list(sut.Cell(hostref, '=%s+1' % text, context=cctx).compile().inputs)
+            except _errs() as ex:
+                got = 'raised %s' % type(ex).__name__
+            if got != [nm]:
+                inv = [nm] if name_class(nm, rect) != 'proper' else [nm] + [g for g in (got if isinstance(got, list) else []) if isinstance(g, str)]
+                fails.append((sig('cell-host', [den], inv, 'other-inputs'),
+                              'Cell(%r, %r, context=%r) has inputs %r, expected [%r]' % (hostref, '=%s+1' % text, cctx, got, nm)))
+            labels.append('cell-hosted')
         if nm is not None:
             if qcause:
                 seen_q.setdefault(nm, text)
